@@ -248,7 +248,7 @@ def _bounds(ctx):
     return dict(max_qubits=10, max_kept=6) if ctx.tier == "quick" else dict(max_qubits=10, max_kept=6)
 
 
-@part("energies", quick=44, thorough=2400)
+@part("energies", quick=40, thorough=2400)
 def energies(ctx):
     """All reference types, all frozen-orbital forms, all molecule families."""
     # the padded UHF register (open finding PHANTOM_SIG) is the subject of the uhf_perspin part; it is kept out of this
@@ -365,7 +365,7 @@ def explicit_cases(draw, mols):
             "cfgs": draw(st.lists(st.sampled_from(CONFIGS), min_size=1, max_size=1))}
 
 
-@part("explicit_coefficients", quick=20, thorough=600)
+@part("explicit_coefficients", quick=16, thorough=600)
 def explicit_coefficients(ctx):
     mols = M.molecules(max_qubits=8, max_kept=5, refs=("rhf", "rohf"), invalid=False)
     ctx.search("explicit", explicit_cases(mols), lambda c: check_explicit_coefficients(ctx, c),
@@ -413,8 +413,191 @@ def shared_solver_cases(draw):
     return {"mols": mols, "cfgs": draw(st.lists(st.sampled_from(CONFIGS), min_size=1, max_size=1))}
 
 
-@part("shared_solver", quick=16, thorough=500)
+@part("shared_solver", quick=12, thorough=500)
 def shared_solver(ctx):
     ctx.search("shared_solver", shared_solver_cases(), lambda c: check_shared_solver(ctx, c),
                exclusions={PHANTOM_SIG: lambda c: any(padded_register({"mol": m}) for m in c["mols"])},
                shrink_calls=30 if ctx.tier == "quick" else 200)
+
+
+# ------------------------------------------------------------------------------------------------ setter histories
+
+def _coeff_copy(mo):
+    return [np.array(x, copy=True) for x in mo] if isinstance(mo, (list, tuple)) else np.array(mo, copy=True)
+
+
+def _coeff_diff(a, b):
+    if isinstance(a, (list, tuple)) or isinstance(b, (list, tuple)) or np.ndim(a) == 3:
+        return max(float(np.max(np.abs(np.asarray(x) - np.asarray(y)))) for x, y in zip(a, b))
+    return float(np.max(np.abs(np.asarray(a) - np.asarray(b))))
+
+
+def judge_reported(mol, mcase, cfgs, what, labels=None):
+    """Self-consistency of ONE molecule object at one point of a history: with the coefficients it reports through its
+    mo_coeff getter (and its own frozen orbitals), <ref|H|ref> = energy of the occupied determinant, the sector minimum of the
+    qubit Hamiltonian = independent CI = FCISolver(mol) (restricted)."""
+    from tangelo.toolboxes.qubit_mappings.statevector_mapping import get_reference_circuit
+    from tangelo.algorithms.classical import FCISolver
+    p = M.partition(mcase, mol)
+    n, ne, sp = mol.n_active_sos, mol.n_active_electrons, mol.active_spin
+    if n != p["n_sos"] or tuple(mol.n_active_ab_electrons) != (p["na"], p["nb"]):
+        raise Fail(f"{what}: n_active_sos={n}, active electrons {mol.n_active_ab_electrons}; expected {p['n_sos']}, ({p['na']},{p['nb']})",
+                   sig="history-bookkeeping")
+    if n > 10:
+        raise Skip("harness bound: more than 10 qubits")
+    kind = "uhf" if mcase["uhf"] else "restricted"
+    e_det = M.determinant_energy(mcase, mol)          # occupied columns of the REPORTED coefficients
+    e_ci, dim = M.ci_energy(mcase, mol, part=p)       # CI with the REPORTED coefficients and this molecule's frozen orbitals
+    fop = mol.fermionic_hamiltonian
+    for mapping, utd in [tuple(c) for c in cfgs]:
+        H, nq, idx, w = sector_minimum(mol, p, mapping, utd, fop, what=what + ": ")
+        k = reference_index(get_reference_circuit(n, ne, mapping, utd, sp), nq)
+        e_ref = M.basis_expectation(H.terms, nq, k)
+        if abs(e_ref - e_det) > TOL_E:
+            raise Fail(f"{what}: {mapping}/up_then_down={utd}: <ref|H|ref>={e_ref}, the occupied determinant of the coefficients "
+                       f"reported by mo_coeff has energy {e_det}", sig=f"history-setter:reference-energy:{kind}")
+        if abs(w[0] - e_ci) > TOL_X:
+            raise Fail(f"{what}: {mapping}/up_then_down={utd}: sector minimum {w[0]}, CI with the reported coefficients and this "
+                       f"molecule's frozen orbitals {e_ci}", sig=f"history-setter:sector-min:{kind}")
+    if not mcase["uhf"]:
+        e_fci = FCISolver(mol).simulate()
+        if abs(e_fci - e_ci) > TOL_E:
+            waived = False
+            if mcase["spin"] == 0 and mol.frozen_mos is None and e_fci > e_ci:
+                e_t, _ = M.ci_energy(mcase, mol, part=dict(p, na=p["na"] + 1, nb=p["nb"] - 1))
+                waived = abs(e_t - e_ci) < TOL_X
+            if not waived:
+                raise Fail(f"{what}: FCISolver={e_fci}, qubit Hamiltonian / CI with the reported coefficients={e_ci}",
+                           sig="history-setter:fci-solver-vs-hamiltonian")
+    return p, e_ci, dim
+
+
+def rotated_coefficients(mol, mcase, p, rot):
+    mo_a, mo_b = M.mo_pair(mol)
+    if mcase["uhf"]:
+        return [M.rotate_active(mo_a, p["act_a"], rot["a"]), M.rotate_active(mo_b, p["act_b"], rot["b"])]
+    return M.rotate_active(mo_a, p["act_a"], rot["a"])
+
+
+def check_roundtrip(ctx, case):
+    """c0 = mol.mo_coeff (the object itself); mol.mo_coeff = rotated; mol.mo_coeff = c0."""
+    mcase = case["mol"]
+    mol = M.build_molecule(mcase)
+    labels = {"ref=" + ("uhf" if mcase["uhf"] else "rohf" if mcase["spin"] else "rhf"), "family=" + mcase["family"]}
+    c0 = mol.mo_coeff                      # the caller keeps what the getter handed out
+    keep = _coeff_copy(c0)
+    p, e_ci, dim = judge_reported(mol, mcase, case["cfgs"], "before the rotation")
+    new = rotated_coefficients(mol, mcase, p, case["rot"])
+    if _coeff_diff(new, keep) < 1e-3:
+        raise Skip("harness: rotation is (numerically) the identity")
+    mol.mo_coeff = new
+    if _coeff_diff(c0, keep) > 0:
+        raise Fail("assigning mol.mo_coeff overwrote the array previously returned by the mo_coeff getter", sig="history-setter:getter-array-overwritten")
+    _, e_rot, _ = judge_reported(mol, mcase, case["cfgs"], "after mol.mo_coeff = rotated")
+    if abs(e_rot - e_ci) > TOL_X:
+        raise AssertionError("CI oracle not invariant under an active rotation")
+    mol.mo_coeff = c0
+    if _coeff_diff(c0, keep) > 0:
+        raise Fail("restoring mol.mo_coeff = c0 changed the caller's array c0", sig="history-setter:getter-array-overwritten")
+    if _coeff_diff(mol.mo_coeff, keep) > 1e-12:
+        raise Fail(f"after mol.mo_coeff = c0 the getter differs from the original coefficients by {_coeff_diff(mol.mo_coeff, keep):.2e}",
+                   sig="history-setter:restore-ineffective")
+    from tangelo.toolboxes.qubit_mappings.statevector_mapping import get_reference_circuit
+    judge_reported(mol, mcase, case["cfgs"], "after restoring mol.mo_coeff = c0")
+    n, ne, sp = mol.n_active_sos, mol.n_active_electrons, mol.active_spin
+    mapping, utd = tuple(case["cfgs"][0])
+    H, nq, idx, w = sector_minimum(mol, p, mapping, utd, what="after restoring: ")
+    e_ref = M.basis_expectation(H.terms, nq, reference_index(get_reference_circuit(n, ne, mapping, utd, sp), nq))
+    if abs(e_ref - mol.mf_energy) > TOL_E or abs(w[0] - e_ci) > TOL_X:
+        raise Fail(f"after the round trip <ref|H|ref>={e_ref} (mf_energy {mol.mf_energy}), sector minimum {w[0]} (CI {e_ci})",
+                   sig="history-setter:roundtrip-energy")
+    return max(len(p["act_a"]), len(p["act_b"])) >= 2 and dim >= 2, labels
+
+
+def check_parent_copy(ctx, case):
+    """A = molecule; B = A.freeze_mos(f1, inplace=False); optionally C = (A or B).freeze_mos(f2, inplace=False); then mo_coeff of
+    one of them is assigned (rotation among ITS active orbitals; it may cross the others' frozen/active border).  Whatever
+    the sharing semantics, every molecule object must stay self-consistent with the coefficients it reports."""
+    mcase = case["mol"]
+    A = M.build_molecule(mcase)
+    mols = [("A", A, mcase)]
+    for k, (fr, parent) in enumerate(case["copies"]):
+        src = mols[min(parent, len(mols) - 1)][1]
+        f = [list(x) for x in fr] if (isinstance(fr, list) and fr and isinstance(fr[0], list)) else (list(fr) if isinstance(fr, list) else fr)
+        X = src.freeze_mos(f, inplace=False)
+        if X is None or X is src:
+            raise Fail("freeze_mos(inplace=False) did not return a new molecule", sig="history-copy:not-a-copy")
+        mols.append(("BC"[k], X, dict(mcase, frozen=fr)))
+    for name, X, xc in mols:
+        if padded_register({"mol": xc}):
+            raise Skip("harness: padded UHF register (open finding) kept out of this search")
+    labels = {"ref=" + ("uhf" if mcase["uhf"] else "rohf" if mcase["spin"] else "rhf"), f"objects={len(mols)}", "family=" + mcase["family"]}
+    for name, X, xc in mols:
+        judge_reported(X, xc, case["cfgs"], f"{name} before any assignment")
+    nontrivial = False
+    for step, (who, rot) in enumerate(case["assign"]):
+        name, X, xc = mols[min(who, len(mols) - 1)]
+        p = M.partition(xc, X)
+        new = rotated_coefficients(X, xc, p, rot)
+        before = {n_: _coeff_copy(Y.mo_coeff) for n_, Y, _ in mols}
+        X.mo_coeff = new
+        for n2, Y, yc in mols:
+            tag = f"step {step + 1}: {n2} after {name}.mo_coeff = rotation among {name}'s active orbitals"
+            py, e_ci, dim = judge_reported(Y, yc, case["cfgs"], tag)
+            shared = _coeff_diff(Y.mo_coeff, new) < 1e-12
+            labels.add(f"{'assigned' if Y is X else 'other'}-object-reports-{'new' if shared else 'old'}-coefficients")
+            if Y is not X and _coeff_diff(new, before[name]) > 1e-3:
+                fa, fb = per_spin_frozen(yc)
+                Ua = M.rotation_matrix(rot["a"], len(p["act_a"]))
+                act = p["act_a"]
+                if any(abs(Ua[i, j]) > 1e-3 for i, qi in enumerate(act) for j, qj in enumerate(act) if (qi in fa) != (qj in fa)):
+                    labels.add("rotation-crosses-other-object's-frozen/active-border")
+                nontrivial |= dim >= 2
+    return nontrivial, labels
+
+
+@st.composite
+def roundtrip_cases(draw, mols):
+    return {"mol": draw(mols), "rot": {"a": draw(M.rotations()), "b": draw(M.rotations())},
+            "cfgs": draw(st.lists(st.sampled_from(CONFIGS), min_size=1, max_size=1))}
+
+
+@st.composite
+def parent_copy_cases(draw, mols):
+    m = draw(mols)
+    if M.n_mos_of([a for a, _ in m["atoms"]], m["basis"]) <= 4 and draw(st.booleans()):
+        m = dict(m, frozen=None)       # a parent with everything active: the copies' frozen orbitals are then active in the parent
+    ncopies = draw(st.sampled_from([1, 1, 2]))
+    elements = [a for a, _ in m["atoms"]]
+    n_mos = M.n_mos_of(elements, m["basis"])
+    _, n_alpha, n_beta = M.electron_counts(elements, m["q"], m["spin"])
+
+    def border_spec():
+        """Frozen list for a copy that freezes one or two orbitals which are ACTIVE in the parent case (so that a rotation
+        among the parent's active orbitals crosses the copy's frozen/active border)."""
+        from hypothesis import assume
+        fa = per_spin_frozen(m)[0]
+        active = [i for i in range(n_mos) if i not in fa]
+        picks = draw(st.lists(st.sampled_from(active), unique=True, min_size=1, max_size=2))
+        fr = sorted(set(draw(st.sampled_from([[], fa]))) | set(picks))
+        assume(n_mos - len(fr) <= 4 and n_mos - len([i for i in fr if i >= n_alpha]) <= 5)
+        fr = [fr, list(fr)] if m["uhf"] else fr
+        assume(M.contract_ok(n_mos, n_alpha, n_beta, bool(m["uhf"]), fr))
+        return fr
+
+    copies = [[border_spec() if draw(st.sampled_from([True, True, False])) else draw(M.frozen_for(m, 8, 5)), draw(st.integers(0, k))]
+              for k in range(ncopies)]      # [frozen spec, parent index]
+    rot = lambda: {"a": draw(M.rotations()), "b": draw(M.rotations())}
+    assign = [[draw(st.integers(0, ncopies)), rot()] for _ in range(draw(st.sampled_from([1, 1, 2])))]
+    return {"mol": m, "copies": copies, "assign": assign, "cfgs": draw(st.lists(st.sampled_from(CONFIGS), min_size=1, max_size=1))}
+
+
+@part("setter_histories", quick=20, thorough=600)
+def setter_histories(ctx):
+    not_padded = lambda m: not padded_register({"mol": m})
+    mols = M.molecules(max_qubits=8, max_kept=5, invalid=False).filter(not_padded)
+    sc = 30 if ctx.tier == "quick" else 200
+    ctx.search("roundtrip", roundtrip_cases(mols), lambda c: check_roundtrip(ctx, c), frac=0.4, shrink_calls=sc)
+    restricted = M.molecules(max_qubits=8, max_kept=5, invalid=False, refs=("rhf", "rohf"))
+    ctx.search("parent_copy", parent_copy_cases(st.one_of(restricted, restricted, restricted, mols)),
+               lambda c: check_parent_copy(ctx, c), frac=0.6, shrink_calls=sc)
